@@ -1,6 +1,7 @@
 package main
 
 import (
+	"sort"
 	"go/types"
 	"strings"
 
@@ -44,6 +45,52 @@ func runC02(c *Ctx) {
 	}
 	c.Floor("R1.csr", nH, 1, "handler Generate implementations")
 	checkKeyGenerators(c)
+}
+
+// globalByRoot: the package-level variable named by an origin root "global:<pkg>.<name>[.<field>...]".
+func (w *World) globalByRoot(root string) *ssa.Global {
+	s := strings.TrimPrefix(root, "global:")
+	slash := strings.LastIndex(s, "/")
+	dot := strings.Index(s[slash+1:], ".")
+	if dot < 0 {
+		return nil
+	}
+	pkgPath := s[:slash+1+dot]
+	rest := s[slash+1+dot+1:]
+	if i := strings.Index(rest, "."); i >= 0 {
+		rest = rest[:i]
+	}
+	p := w.ByPath[pkgPath]
+	if p == nil || p.Types == nil {
+		return nil
+	}
+	sp := w.Prog.Package(p.Types)
+	if sp == nil {
+		return nil
+	}
+	g, _ := sp.Members[rest].(*ssa.Global)
+	return g
+}
+
+// hasReferenceParts: values of type t carry state shared by copies (maps, slices, pointers, channels, functions,
+// interfaces), directly or inside struct fields / array elements.
+func hasReferenceParts(t types.Type, depth int) bool {
+	if depth > 4 {
+		return true
+	}
+	switch u := t.Underlying().(type) {
+	case *types.Map, *types.Slice, *types.Pointer, *types.Chan, *types.Signature, *types.Interface:
+		return true
+	case *types.Struct:
+		for i := 0; i < u.NumFields(); i++ {
+			if hasReferenceParts(u.Field(i).Type(), depth+1) {
+				return true
+			}
+		}
+	case *types.Array:
+		return hasReferenceParts(u.Elem(), depth+1)
+	}
+	return false
 }
 
 func isNamedType(t types.Type) bool {
@@ -191,6 +238,42 @@ func checkGenerate(c *Ctx, m *gensignModel, h *types.Named, gen *ssa.Function) {
 	}
 	c.Check(okK, "R1.csr", hn+"|KeyMeta.Identifier", w.Pos(req.Pos()), "conf.KeyIdentifiers[param.Attrs.CAPubKeyAlgo] (comma-ok)", "the CA key slot is not the configured identifier of the requested CA key algorithm")
 	if lk != nil {
+		// the configuration the slot is looked up in belongs to this handler alone: whatever is stored into the
+		// handler field holding it does not originate in a package-level variable with reference-typed parts (a
+		// map / slice / pointer shared by every handler configuration loaded in the process)
+		ex := strings.TrimPrefix(w.Expr(lk.X), "p0.")
+		confField := ex
+		if i := strings.Index(ex, "."); i >= 0 {
+			confField = ex[:i]
+		}
+		nWr := 0
+		for _, a := range w.FieldAccesses(h, confField) {
+			st, isStore := a.Instr.(*ssa.Store)
+			if a.Kind != "write" || !isStore {
+				continue
+			}
+			nWr++
+			w.Focus(a.Fn)
+			var shared []string
+			for o := range w.Origins(st.Val) {
+				if !strings.HasPrefix(o, "global:"+RepoMod) {
+					continue
+				}
+				name := strings.TrimPrefix(o, "global:")
+				if i := strings.Index(name[strings.LastIndex(name, "/")+1:], "."); i >= 0 {
+					// global:<pkg path>.<var>[.<field>...]
+				}
+				if g := w.globalByRoot(o); g != nil && hasReferenceParts(g.Type().(*types.Pointer).Elem(), 0) {
+					shared = append(shared, o)
+				}
+			}
+			sort.Strings(shared)
+			c.Check(len(shared) == 0, "R1.csr", hn+"|configuration private to the handler ("+shortFn(a.Fn)+")", w.Pos(st.Pos()), "the stored configuration has no reference-typed state shared through a package-level variable", "the handler configuration aliases package-level state shared by all handlers (a map/slice/pointer inside "+strings.Join(shared, ", ")+"): slots configured for one handler leak into the others")
+		}
+		w.Focus(gen)
+		c.Floor("R1.csr", nWr, 1, "writers of the handler configuration field "+confField)
+	}
+	if lk != nil {
 		okv := extractOfV(lk, 1)
 		isT, known := f.KnownBool(req.Block(), okv)
 		c.Check(known && isT, "R1.csr", hn+"|request built only when a key slot is configured", w.Pos(req.Pos()), "must-fact lookup ok", "a request can be built although no key slot is configured for the algorithm (silent default)")
@@ -284,9 +367,9 @@ func checkGenerate(c *Ctx, m *gensignModel, h *types.Named, gen *ssa.Function) {
 		okFresh := false
 		for _, call := range callsIn(ak) {
 			if strings.HasSuffix(calleeName(call), "agent/ssh.NewSSHAgentKeyWithOpt") || strings.HasSuffix(calleeName(call), "agent/ssh.NewSSHAgentKey") {
+				okFresh = true
 				for _, r := range w.MayBeNilReturns(ak) {
 					rs := w.Origins(r.Results[0])
-					okFresh = true
 					for o := range rs {
 						if strings.HasPrefix(o, "global:"+RepoMod) && !strings.HasSuffix(o, "DefaultKeyOpt") && !strings.Contains(o, "DefaultKeyOpt.") {
 							okFresh = false
